@@ -67,6 +67,10 @@ class DomHooks(SelfHooks):
     def lookup(self, interp, name, state):
         return None
 
+    def absent_attr(self, obj, name):
+        # the child list of a node exists once the childNodes getter (or the scenario) has made it - as hasattr() below says
+        return name == '_dom_childNodes'
+
     def keep(self, ev):
         return False
 
